@@ -16,6 +16,7 @@ result goes through `wireText` (concatenating first matters: a CR ending one tex
 arrive as ONE line feed); empty character data leaves no node.
 -/
 import Proofs.Lemmas.XmlParse
+import Proofs.Lemmas.XmlCdata
 
 namespace XmlSyntax
 open Pywbem.Model Pywbem.Model.XmlText Pywbem.Model.XmlParse Proofs.XmlParse
@@ -85,6 +86,122 @@ example : par (Xml.ser sample) = some sampleWire := by rfl
 example : par "<a b=\"1\" b=\"2\"/>".toList = none ∧ par "<a></b>".toList = none ∧ par "<a>]]></a>".toList = none ∧
     par "<a/><b/>".toList = none ∧ par "<a b=\"1\"c=\"2\"/>".toList = none := by
   refine ⟨?_, ?_, ?_, ?_, ?_⟩ <;> rfl
+
+/-! ### CDATA-based escaping (`_cim_xml._CDATA_ESCAPING = True`)
+
+`pcdataSer true s` (Pywbem/Model/XmlCdata.lean) is `_pcdata_nodes(s)` serialised: when `s` contains `<`, `>` or `&`
+it is `s.split("]]>")` written as CDATA sections with the end marker split between neighbours, otherwise the
+entity-escaped text node.  `Xml.serWith m` is `Xml.ser` with the text children written by `pcdataSer m`. -/
+
+open Pywbem.Model.XmlCdata Proofs.XmlCdata
+
+/-- **Split and re-join.** The contents of the CDATA sections written for `s`, concatenated, are `s` — for any
+    number of `]]>` occurrences, adjacent (`]]>]]>`) or overlapping with brackets (`]]]>`). -/
+theorem XmlSyntax_cdata_join (s : Str) : (cdataData true (splitCd s)).flatten = s := cdataData_join s
+
+/-- No section's data contains `]]>`: minidom's `CDATASection.writexml` never raises, and each section ends where
+    the writer meant it to end. -/
+theorem XmlSyntax_cdata_sections_closed (s : Str) : ∀ d ∈ cdataData true (splitCd s), hasCdEnd d = false :=
+  cdataData_noEnd true _ (splitCd_noEnd s)
+
+/-- **One text child, CDATA mode.** The receiver gets the same text as with entity escaping: the string with its line
+    ends normalised (CR and CR LF inside a CDATA section become LF just as in character data), no child for the
+    empty string. -/
+theorem XmlSyntax_par_cdata_text (n : Str) (as : List (Str × Str)) (s : Str) (h : WfTree (.elem n as [.text s])) :
+    par (Xml.serWith true (.elem n as [.text s])) = wireTree (.elem n as [.text s]) ∧
+    wireKids [] [.text s] = some (if s = [] then [] else [.text (normEOL false s)]) := by
+  refine ⟨par_serWith_true n as [.text s] h (cdSafe_single n as s), ?_⟩
+  have h' : wfTree (.elem n as [.text s]) = true := h
+  simp only [wfTree, wfKids, Bool.and_eq_true, List.all_eq_true] at h'
+  simp [wireKids, flushText_xml h'.2.1]
+
+/- Full statement asked for — FALSE, for the model and for the real expat alike (`XmlSyntax_par_serWith_needs_cdSafe`):
+     theorem XmlSyntax_par_serWith (m) (t) (h : WfTree t) (hel : t.isElem = true) : par (Xml.serWith m t) = wireTree t
+   A text child ending in CR directly followed by a text child starting with LF is one run `…\r\n…` under entity
+   escaping (one LF arrives) but two tokens when either is a CDATA section (two LF arrive: checked against
+   xml_to_tupletree_sax on `<A><![CDATA[<\r]]>\n</A>`).  pywbem never writes two text nodes into one element.
+   `CdSafe t` (decidable): no text child ending in CR is directly followed by another text child. -/
+
+/-- **Round trip, either escaping mode.** -/
+theorem XmlSyntax_par_serWith (m : Bool) (t : Xml) (h : WfTree t) (hel : t.isElem = true)
+    (hc : m = true → CdSafe t) : par (Xml.serWith m t) = wireTree t := by
+  cases m with
+  | false => rw [serWith_false]; exact XmlSyntax_par_ser t h hel
+  | true =>
+    cases t with
+    | text s => simp [Xml.isElem] at hel
+    | elem n as ks => exact par_serWith_true n as ks h (hc rfl)
+
+/-- **Stable round trip, either escaping mode**: the receiver sees exactly the tree the sender wrote. -/
+theorem XmlSyntax_par_serWith_stable (m : Bool) (t : Xml) (h : WfTree t) (hel : t.isElem = true)
+    (hs : StableTree t) : par (Xml.serWith m t) = some t := by
+  rw [XmlSyntax_par_serWith m t h hel (fun _ => stable_cdSafe t hs)]; exact wireTree_stable t h hs
+
+/-- the unconditional statement fails: CR and LF in two adjacent text children, the first written as CDATA -/
+theorem XmlSyntax_par_serWith_needs_cdSafe :
+    ∃ t, WfTree t ∧ t.isElem = true ∧ par (Xml.serWith true t) ≠ wireTree t := by
+  refine ⟨.elem ['A'] [] [.text ['<', '\r'], .text ['\n']], by decide, rfl, ?_⟩
+  have h1 : par (Xml.serWith true (.elem ['A'] [] [.text ['<', '\r'], .text ['\n']])) =
+      some (.elem ['A'] [] [.text ['<', '\n', '\n']]) := by rfl
+  have h2 : wireTree (.elem ['A'] [] [.text ['<', '\r'], .text ['\n']]) =
+      some (.elem ['A'] [] [.text ['<', '\n']]) := by rfl
+  rw [h1, h2]
+  simp
+
+/-! ### non-vacuity, CDATA mode -/
+
+/-- the bytes: empty string; no special character (plain, `"` still escaped); special character, no `]]>`; one, two,
+    adjacent and overlapping `]]>` -/
+example : pcdataSer true [] = [] ∧
+    pcdataSer true "a\"b]]".toList = "a&quot;b]]".toList ∧
+    pcdataSer true "a<b&c".toList = "<![CDATA[a<b&c]]>".toList ∧
+    pcdataSer true "a]]>b".toList = "<![CDATA[a]]]><![CDATA[]>b]]>".toList ∧
+    pcdataSer true "a]]>b]]>c".toList = "<![CDATA[a]]]><![CDATA[]>b]]]><![CDATA[]>c]]>".toList ∧
+    pcdataSer true "]]>]]>".toList = "<![CDATA[]]]><![CDATA[]>]]]><![CDATA[]>]]>".toList ∧
+    pcdataSer true "]]]>".toList = "<![CDATA[]]]]><![CDATA[]>]]>".toList ∧
+    pcdataSer false "a]]>b".toList = "a]]&gt;b".toList := by decide +kernel
+
+/-- nested escaping as embedded objects produce it: the text of an embedded object, escaped once and twice -/
+def emb0 : Str := "<VALUE>a&b</VALUE>".toList
+def emb1 : Str := pcdataSer true emb0
+def emb2 : Str := pcdataSer true emb1
+example : emb1 = "<![CDATA[<VALUE>a&b</VALUE>]]>".toList ∧
+    emb2 = "<![CDATA[<![CDATA[<VALUE>a&b</VALUE>]]]><![CDATA[]>]]>".toList := by decide +kernel
+
+def V (s : Str) : Xml := .elem "VALUE".toList [] [.text s]
+
+/-- each level of escaping is undone by one parse: the doubly escaped text is read back as the singly escaped one,
+    and that as the original -/
+example : par (Xml.serWith true (V emb1)) = some (V emb1) ∧ par ("<VALUE>".toList ++ emb2 ++ "</VALUE>".toList) = some (V emb1) ∧
+    par ("<VALUE>".toList ++ emb1 ++ "</VALUE>".toList) = some (V emb0) := by
+  refine ⟨?_, ?_, ?_⟩
+  · exact XmlSyntax_par_serWith_stable true (V emb1) (by decide +kernel) rfl (by decide +kernel)
+  · exact XmlSyntax_par_serWith_stable true (V emb1) (by decide +kernel) rfl (by decide +kernel)
+  · exact XmlSyntax_par_serWith_stable true (V emb0) (by decide +kernel) rfl (by decide +kernel)
+
+/-- read back through the theorem: 0, 1, 2, adjacent and overlapping occurrences, CR LF inside a section, empty -/
+example : ∀ s ∈ ["a<b&c".toList, "a]]>b".toList, "a]]>b]]>c".toList, "]]>]]>".toList, "]]]>".toList, "]]>".toList,
+      "<\r\n]]>\r".toList, []],
+    par (Xml.serWith true (V s)) = some (.elem "VALUE".toList [] (if s = [] then [] else [.text (normEOL false s)])) := by
+  intro s hs
+  have hw : WfTree (V s) := by
+    simp only [List.mem_cons, List.mem_nil_iff, or_false] at hs
+    rcases hs with rfl | rfl | rfl | rfl | rfl | rfl | rfl | rfl <;> decide +kernel
+  obtain ⟨h1, h2⟩ := XmlSyntax_par_cdata_text "VALUE".toList [] s hw
+  rw [V, h1]
+  simp only [wireTree, wireAttrs, h2]
+
+set_option maxRecDepth 100000 in
+/-- the parser itself, run by the kernel (no theorem involved): overlapping end markers, CR LF inside a section -/
+example : par (Xml.serWith true (V "]]]>&\r\n]]>".toList)) = some (V "]]]>&\n]]>".toList) := by rfl
+
+/-- a whole tree in CDATA mode: attributes stay entity-escaped, text children become sections -/
+example : Xml.serWith true sample =
+    ("<INSTANCE CLASSNAME=\"a&amp;&lt;&gt;&quot;'\tb\" x:y-z.1=\"\"><VALUE></VALUE><![CDATA[a]]]><![CDATA[]>\r]]>\nb" ++
+     "<PROPERTY NAME=\"P\"><VALUE><![CDATA[1 < 2 & 3]]></VALUE></PROPERTY><E/></INSTANCE>").toList := by decide +kernel
+example : CdSafe sampleWire ∧ ¬ CdSafe sample := by decide
+example : par (Xml.serWith true sampleWire) = some sampleWire :=
+  XmlSyntax_par_serWith_stable true sampleWire (by decide) (by decide) (by decide)
 
 end XmlSyntax
 
